@@ -87,6 +87,11 @@ REWRITES = {
     "box_as_mut": ("re", r"\bboxed\.as_mut\(\)", r"&mut **boxed", "Box::as_mut on &mut Box<T> replaced by its std body `&mut **self`"),
     "ident_to_string": ("re", r"\b(creator|name)\.to_string\(\)", r"ident_to_string(\1)", "ToString via `impl Display for Identifier` (writes `self.value`) -> shim"),
     "string_is_literal": ("re", r"(\b[\w\.]+)\s*==\s*(\"[^\"]*\")", r"string_is(&\1, \2)", "String == &str literal -> shim"),
+    "build_parameters_loop": ("re", r"(?s)self\s*\.parameters\s*\.iter_mut\(\)\s*\.filter_map\(\|param\| build_parameter\(param, table, &mut local_table\)\)\s*\.collect\(\)", r"build_parameters_loop(&mut self.parameters, table, &mut local_table)", "R6: iter_mut().filter_map(f).collect() replaced by a call whose contract is `f (= build_parameter, verified) is applied to every parameter in order, threading the local table; the Some results are collected in order`"),
+    "build_variables_loop": ("re", r"(?s)self\.variable_declarations\s*\.iter_mut\(\)\s*\.for_each\(\|dec\| build_variable\(dec, table, &mut local_table\)\)", r"build_variables_loop(&mut self.variable_declarations, table, &mut local_table)", "R6: iter_mut().for_each(f) replaced by a call whose contract is `f (= build_variable, verified) is applied to every declaration in order, threading the local table`"),
+    "local_table_default": ("re", r"LocalTable::default\(\)", r"local_table_default()", "derived Default for LocalTable (an empty HashMap) -> shim"),
+    "build_declarations_loop": ("re", r"(?s)self\.global_declarations\s*\.iter_mut\(\)\s*\.map\(\|dec\| \{\s*let offset = offset \+ dec\.offset;\s*\(dec, offset\)\s*\}\)\s*\.for_each\(\|\(dec, offset\)\| dec\.build\(table, offset\)\)", r"build_declarations_loop(&mut self.global_declarations, table, offset)", "R6: iter_mut().map(..).for_each(|(dec, offset)| dec.build(table, offset)) replaced by a call whose contract is `every global declaration is built in order with offset + its Reference offset, threading the global table`"),
+    "drop_lookup_as_ref": ("re", r'table\.lookup\("main"\)\.as_ref\(\)', 'table.lookup("main")', "Option<&T>::as_ref() only adds a reference level to a pattern match (no vstd spec)"),
     "drop_const_fn": ("re", r"\bconst fn\b", "fn", "const fn that calls non-const shim"),
 }
 
